@@ -183,6 +183,9 @@ type inst struct {
 	names   map[string]string         // canonical name -> source name (for the comment in the generated file)
 	declPos map[*ast.Object]token.Pos // first occurrence = declaration
 	feed    map[*ast.Object]bool      // skeleton.go feeding(): locals whose value reaches a guard / index on peer bytes
+	// a followed callee whose result is assigned to a feeding local of the caller: the returned expressions feed too
+	feedSeeds []ast.Expr
+	feedExtra *ast.Object
 }
 
 // instantiate makes a private copy of the function. keep: objects for which the caller decides the name
@@ -412,6 +415,11 @@ func (in *inst) intProvable(e ast.Expr) bool {
 		if id, ok := x.Fun.(*ast.Ident); ok && id.Obj == nil && (id.Name == "len" || id.Name == "cap" || intTypes[id.Name]) {
 			return true
 		}
+		// x.Len(): every method `Len()` declared anywhere in the repository returns int (checked, lenMethodsInt), and so
+		// does every Len() of the standard library (bytes, strings, container/*, sort, reflect)
+		if f, ok := x.Fun.(*ast.SelectorExpr); ok && f.Sel.Name == "Len" && len(x.Args) == 0 && lenMethodsInt() {
+			return true
+		}
 	case *ast.BinaryExpr:
 		switch x.Op {
 		case token.REM, token.AND, token.OR, token.XOR, token.AND_NOT:
@@ -598,13 +606,16 @@ func boolOp(e ast.Expr) token.Token {
 
 func paren(e ast.Expr) ast.Expr { return &ast.ParenExpr{X: e} }
 
-// nnf returns e (neg = false) or its negation (neg = true) with every `!` pushed down to the atoms.
-func (in *inst) nnf(e ast.Expr, neg bool) ast.Expr {
+// nnf returns e (neg = false) or its negation (neg = true) with every `!` pushed down to the atoms (nnf0), in the
+// canonical operand order of canonExpr.
+func (in *inst) nnf(e ast.Expr, neg bool) ast.Expr { return in.canonExpr(in.nnf0(e, neg)) }
+
+func (in *inst) nnf0(e ast.Expr, neg bool) ast.Expr {
 	e = stripParens(e)
 	switch x := e.(type) {
 	case *ast.UnaryExpr:
 		if x.Op == token.NOT {
-			return in.nnf(x.X, !neg)
+			return in.nnf0(x.X, !neg)
 		}
 	case *ast.BinaryExpr:
 		switch x.Op {
@@ -617,7 +628,7 @@ func (in *inst) nnf(e ast.Expr, neg bool) ast.Expr {
 					op = token.LAND
 				}
 			}
-			l, r := in.nnf(x.X, neg), in.nnf(x.Y, neg)
+			l, r := in.nnf0(x.X, neg), in.nnf0(x.Y, neg)
 			// a || b inside && needs parentheses; the right operand of the same operator too (keeps the tree shape)
 			if op == token.LAND {
 				if boolOp(l) == token.LOR {
@@ -908,4 +919,234 @@ func (in *inst) normList(l []ast.Stmt) []ast.Stmt {
 		return append(out, in.normList(tail)...)
 	}
 	return out
+}
+
+// ---------------------------------------------------------------- operand order
+
+var lenInt = -1
+
+var reLenDecl = regexp.MustCompile(`(?m)^func\s*\([^)]*\)\s*Len\(\)\s*([^{]*)\{`)
+
+// lenMethodsInt: no Go file of the repository declares a method `Len()` with a result other than int.
+func lenMethodsInt() bool {
+	if lenInt >= 0 {
+		return lenInt == 1
+	}
+	lenInt = 1
+	filepath.Walk(vtrans.RepoRoot(), func(p string, fi os.FileInfo, err error) error {
+		if err != nil {
+			return nil
+		}
+		if fi.IsDir() {
+			if n := fi.Name(); n == ".git" || n == "testdata" {
+				return filepath.SkipDir
+			}
+			return nil
+		}
+		if !strings.HasSuffix(p, ".go") {
+			return nil
+		}
+		data, err := os.ReadFile(p)
+		if err != nil {
+			lenInt = 0
+			return nil
+		}
+		for _, m := range reLenDecl.FindAllSubmatch(data, -1) {
+			if strings.TrimSpace(string(m[1])) != "int" {
+				lenInt = 0
+			}
+		}
+		return nil
+	})
+	return lenInt == 1
+}
+
+func builtinIntCall(x *ast.CallExpr) bool {
+	id, ok := x.Fun.(*ast.Ident)
+	return ok && id.Obj == nil && (id.Name == "len" || id.Name == "cap" || intTypes[id.Name])
+}
+
+// pureExpr: evaluating e changes nothing and calls nothing (but len / cap / integer conversions) - the operands of
+// a comparison may then be evaluated in either order (if one of them panics, the comparison panics either way).
+func pureExpr(e ast.Expr) bool {
+	ok := true
+	ast.Inspect(e, func(n ast.Node) bool {
+		switch x := n.(type) {
+		case *ast.FuncLit:
+			ok = false
+		case *ast.CallExpr:
+			if !builtinIntCall(x) {
+				ok = false
+			}
+		case *ast.UnaryExpr:
+			if x.Op == token.ARROW {
+				ok = false
+			}
+		}
+		return ok
+	})
+	return ok
+}
+
+// constLike: literals, nil, named constants and arithmetic on them (no local, no selector).
+func constLike(e ast.Expr) bool {
+	ok := true
+	ast.Inspect(e, func(n ast.Node) bool {
+		switch x := n.(type) {
+		case nil, *ast.BasicLit, *ast.ParenExpr, *ast.BinaryExpr, *ast.UnaryExpr:
+		case *ast.Ident:
+			if x.Obj != nil || strings.HasPrefix(x.Name, phOpen) || strings.HasPrefix(x.Name, "$") || x.Name == "c" {
+				ok = false
+			}
+		default:
+			ok = false
+		}
+		return ok
+	})
+	return ok
+}
+
+// totalExpr: pure and unable to panic whatever the state is - names, literals, len / cap of a name, arithmetic
+// without division or shift, ordered comparisons, == / != against nil or a constant or between integers. Only such
+// operands of && / || may change places (a selector may dereference nil, an index may be out of range: `p != nil &&
+// p.x > 0` keeps its order).
+func (in *inst) totalExpr(e ast.Expr) bool {
+	switch x := e.(type) {
+	case *ast.Ident, *ast.BasicLit:
+		return true
+	case *ast.ParenExpr:
+		return in.totalExpr(x.X)
+	case *ast.UnaryExpr:
+		switch x.Op {
+		case token.NOT, token.SUB, token.ADD, token.XOR:
+			return in.totalExpr(x.X)
+		}
+	case *ast.CallExpr:
+		if builtinIntCall(x) && len(x.Args) == 1 {
+			if id, ok := x.Fun.(*ast.Ident); ok && (id.Name == "len" || id.Name == "cap") {
+				_, isId := stripParens(x.Args[0]).(*ast.Ident)
+				return isId
+			}
+			return in.totalExpr(x.Args[0]) && in.intProvable(x.Args[0]) // int -> int conversion
+		}
+	case *ast.BinaryExpr:
+		if !in.totalExpr(x.X) || !in.totalExpr(x.Y) {
+			return false
+		}
+		switch x.Op {
+		case token.LAND, token.LOR, token.ADD, token.SUB, token.MUL, token.AND, token.OR, token.XOR, token.AND_NOT,
+			token.LSS, token.LEQ, token.GTR, token.GEQ:
+			return true
+		case token.EQL, token.NEQ:
+			// two interface values holding an uncomparable type panic in ==
+			return constLike(x.X) || constLike(x.Y) || in.intProvable(x.X) || in.intProvable(x.Y)
+		}
+	}
+	return false
+}
+
+type opKey struct {
+	cls  int
+	text string
+	ids  []int
+}
+
+func (in *inst) keyOf(e ast.Expr) opKey {
+	k := opKey{}
+	if constLike(e) {
+		k.cls = 1 // constants stand on the right
+	}
+	raw := showIn(in.fset, e)
+	for _, m := range rePh.FindAllStringSubmatch(raw, -1) {
+		n, _ := strconv.Atoi(m[1])
+		k.ids = append(k.ids, n)
+	}
+	k.text = rePh.ReplaceAllString(raw, "$$")
+	return k
+}
+
+func (a opKey) less(b opKey) bool {
+	if a.cls != b.cls {
+		return a.cls < b.cls
+	}
+	if a.text != b.text {
+		return a.text < b.text
+	}
+	for i := 0; i < len(a.ids) && i < len(b.ids); i++ {
+		if a.ids[i] != b.ids[i] {
+			return a.ids[i] < b.ids[i] // declaration order of the locals
+		}
+	}
+	return false
+}
+
+var mirrorOp = map[token.Token]token.Token{token.LSS: token.GTR, token.GTR: token.LSS, token.LEQ: token.GEQ, token.GEQ: token.LEQ,
+	token.EQL: token.EQL, token.NEQ: token.NEQ}
+
+// canonExpr puts the operands of a condition into one canonical order where the order cannot matter:
+//   - `a == b`, `a != b`, `a < b` (written `b > a`) … with pure operands: the operand with the smaller key first
+//     (constants last; names of locals do not take part in the key, their declaration order breaks ties);
+//   - a chain of && (or ||) is flattened (short-circuit evaluation is associative) and every maximal run of adjacent
+//     TOTAL operands is sorted by key; an operand that could panic or has an effect keeps its place, and so does
+//     everything relative to it.
+//
+// The result denotes the same function of the state as e. Idempotent.
+func (in *inst) canonExpr(e ast.Expr) ast.Expr {
+	switch x := e.(type) {
+	case *ast.ParenExpr:
+		return &ast.ParenExpr{X: in.canonExpr(x.X)}
+	case *ast.UnaryExpr:
+		if x.Op == token.NOT {
+			return &ast.UnaryExpr{Op: x.Op, X: in.canonExpr(x.X)}
+		}
+	case *ast.BinaryExpr:
+		switch x.Op {
+		case token.LAND, token.LOR:
+			var ops []ast.Expr
+			var flat func(y ast.Expr)
+			flat = func(y ast.Expr) {
+				y = stripParens(y)
+				if b, ok := y.(*ast.BinaryExpr); ok && b.Op == x.Op {
+					flat(b.X)
+					flat(b.Y)
+					return
+				}
+				ops = append(ops, in.canonExpr(y))
+			}
+			flat(x)
+			for i := 0; i < len(ops); {
+				j := i
+				for j < len(ops) && in.totalExpr(ops[j]) {
+					j++
+				}
+				if j-i > 1 {
+					run := ops[i:j]
+					sort.SliceStable(run, func(a, b int) bool { return in.keyOf(run[a]).less(in.keyOf(run[b])) })
+				}
+				if j == i {
+					j++
+				}
+				i = j
+			}
+			var r ast.Expr
+			for _, o := range ops {
+				if x.Op == token.LAND && boolOp(o) == token.LOR {
+					o = paren(o)
+				}
+				if r == nil {
+					r = o
+				} else {
+					r = &ast.BinaryExpr{X: r, Op: x.Op, Y: o}
+				}
+			}
+			return r
+		case token.EQL, token.NEQ, token.LSS, token.GTR, token.LEQ, token.GEQ:
+			l, r := in.canonExpr(x.X), in.canonExpr(x.Y)
+			if pureExpr(l) && pureExpr(r) && in.keyOf(r).less(in.keyOf(l)) {
+				return &ast.BinaryExpr{X: r, Op: mirrorOp[x.Op], Y: l}
+			}
+			return &ast.BinaryExpr{X: l, Op: x.Op, Y: r}
+		}
+	}
+	return e
 }
